@@ -43,7 +43,7 @@ def n_of(c):
 
 
 INVARIANTS = ["TypeOK", "Partition", "ProgressIsTruth"]
-PROPERTIES = ["OnlyOwnResult", "ResowKeepsResults", "FailedGrowWritesNothing", "ReapEqualsDirect", "PartialReapWorks",
+PROPERTIES = ["DirectDataSurvives", "OnlyOwnResult", "ResowKeepsResults", "FailedGrowWritesNothing", "ReapEqualsDirect", "PartialReapWorks",
               "RefusedUntouched", "DeleteOnlyAfterDelivery", "FailedReapKeepsCrop"]
 
 
@@ -65,7 +65,7 @@ def run_model(name, configs, *, acts, max_steps, record, max_perm=3, emit=False,
 
 # -- concrete world -----------------------------------------------------------------
 
-def make_fn(failpath, names, mode, version=1):
+def make_fn(failpath, names, mode, version=1, exc_kind="value"):
     """The swept function, defined in a closure so that cloudpickle ships it by value.
     Returns a token of exactly its keyword arguments (the constant kattr shifts it by 10^6 per unit above 7);
     version 1 raises on the tokens listed in failpath, version 2 (the corrected function) never does."""
@@ -86,6 +86,8 @@ def make_fn(failpath, names, mode, version=1):
             except Exception:
                 bad = []
         if tok in bad:
+            if exc_kind == "stop":
+                raise StopIteration("vx-fail")      # e.g. next() on an exhausted iterator inside the user's function
             raise ValueError("vx-fail")
         if tok >= 0:
             tok += (kw["kattr"] - 7) * 1000000
@@ -132,7 +134,7 @@ class World(object):
             self.tok_of[i + 1] = t
             self.id_of_tok[t] = i + 1
         self.set_failing(sorted(cfg["failing"]) if isinstance(cfg["failing"], (list, set)) else [])
-        self.fn = make_fn(self.failpath, tuple(self.names), self.mode, 1)
+        self.fn = make_fn(self.failpath, tuple(self.names), self.mode, 1, variant.get("exc_kind", "value"))
         self.kver = 0           # version of the farmer's constants
         self.expect_k = 0       # constants version the model says is baked into the sown batches
         self.cause = cfg["cause"]
@@ -219,7 +221,8 @@ class World(object):
                 if from_disk and not first:
                     from xyzpy.gen.cropping import from_pickle, read_from_disk, FNCT_NM
                     self.fn = from_pickle(read_from_disk(os.path.join(self.tmp, ".xyz-vxcrop", FNCT_NM)))
-                self.farmer = self.make_farmer(broken=broken)
+                if not (first and self.farmer is not None):      # a Harvester that already harvested directly is kept
+                    self.farmer = self.make_farmer(broken=broken)
                 self.crop = xyz.Crop(farmer=self.farmer, **kw)
         return self.crop
 
@@ -503,7 +506,7 @@ def check_direct(w, reaped):
     return None
 
 
-def check_store(w, store_ids):
+def check_store(w, store_ids, extra=0):
     """The farmer's on-disk data must hold exactly the delivered ids (Harvester)."""
     if w.farmer_kind != "harvester":
         return None
@@ -528,6 +531,15 @@ def check_store(w, store_ids):
                 return "harvester file holds the value of setting %s at setting %d, expected %s" % (got, i, i if i in ids else 0)
     finally:
         ds.close()
+    for e in range(1, (extra or 0) + 1):
+        val = 10 - e
+        try:
+            x = float(ds["x"].sel({nm: val for nm in w.names}).values)
+        except KeyError:
+            x = float("nan")
+        want = sum(val * (100 ** j) for j in range(len(w.names))) + w.kver * 1000000
+        if x != want:
+            return "the point harvested directly (all arguments = %d) holds %r in the harvester file, expected %r" % (val, x, want)
     mem = w.farmer.full_ds if w.farmer is not None else None
     if mem is not None and not mem.equals(ds):
         return "Harvester.full_ds differs from the file on disk"
@@ -631,6 +643,13 @@ def do_step(w, ev):
                 w.crop.fn = w.fn
                 if w.farmer is not None:
                     w.farmer.fn = w.fn
+            elif a == "direct_harvest":
+                # other points (every argument = 9, then 8), harvested by the session's own Harvester object
+                w.n_direct = getattr(w, "n_direct", 0) + 1
+                val = 10 - w.n_direct
+                if w.farmer is None:
+                    w.farmer = w.make_farmer()
+                w.farmer.harvest_combos({nm: [val] for nm in w.names}, verbosity=0)
             elif a == "change_const":
                 w.kver = 1
                 r = w.farmer if w.farmer_kind == "runner" else w.farmer.runner
@@ -735,7 +754,7 @@ def replay_case(case, variant):
                             return None, None, k, notes
                         if prob:
                             return ("step %d reap%r: %s" % (k, tuple(ev["args"]), prob), "reap_value_" + want, k, notes)
-                        prob = check_store(w, ev["store"])
+                        prob = check_store(w, ev["store"], ev.get("extra", 0))
                         if prob:
                             return ("step %d after reap: %s" % (k, prob), "store", k, notes)
                         if w.farmer_kind != "none" and w.farmer is not None:
@@ -768,6 +787,8 @@ def replay_case(case, variant):
                     if outcome != want:
                         return ("step %d %s%r: outcome %s (%s), model says %s" % (
                             k, ev["a"], tuple(ev["args"]), outcome, "" if exc is None else type(exc).__name__ + ": " + str(exc)[:160], want), "outcome_" + ev["a"], k, notes)
+                if w.crop is None:
+                    continue            # nothing sown yet (a direct harvest before the sow): no crop to observe
                 prob = compare_obs(w, post, k)
                 if prob and drifted and w.cfg["failing"]:
                     notes.append("model_drift (after batch-order drift): " + prob)
@@ -815,7 +836,7 @@ def default_variants(case, idx):
     cfg = case["cfg"]
     k = idx
     v = dict(seed1=[True, 3][k % 2], combos_dict=(k % 3 != 0), reload_from_disk=(k % 2 == 0),
-             corrupt_kind=["truncate", "long", "short"][k % 3])
+             corrupt_kind=["truncate", "long", "short"][k % 3], exc_kind=["value", "stop"][k % 4 == 1])
     if cfg["farmer"] == "none":
         v["result"] = ["scalar", "xy", "array", "str", "bool"][k % 5]
     else:
